@@ -54,6 +54,15 @@ CHECKS = {
  "C18": (MC, "three backend source sets built via the Makefile against thin adapters over one converter; address/TLD/policy vectors and all object histories (with faults) replayed on each; TLC object model with CONSTANT Backend for context balance",
          "Same pins as the idn2 build on every vector; create/destroy balance of the idnkit context checked in TLC (ctx in {0,1}, zero after eav_free, never destroyed at 0) and by adapter counters after every replayed history.",
          "libidn and idnkit themselves are absent: the adapters (harness/adapters) stand for them, so nothing is claimed about those libraries, only about libeav's three source sets."),
+ "C11": ("translation_validation", "the CSV is the specification (TldData + ClassOfRow in TLA+); compiled tld_list[], gentld.pl output and gen_utf8_pass_test.pl output validated row by row by TLC (Trace_Table) + line diff of regenerated vs shipped files",
+         "Three programs (the compiled table seen through the exported symbol and is_tld, and the two generators re-run on the shipped CSVs) are checked against the CSV-derived specification on every row; regenerated artefacts are compared with the shipped ones line by line (timestamp aside).",
+         "Trusted: TLC, tools/gen_tlddata.py (CSV syntax only), the Text::CSV stand-in harness/perl-shim (Text::CSV is not installed), Python's csv module."),
+ "C14": (MC, "TLC over all interleavings of overlapping calls with the library's writable static storage extracted from the build's object files; TSan build + default build running the TLC address vectors in 4-16 threads with comparison to the single-threaded run",
+         "Design claim (no shared writable cell) is checked against the actual object files; data races in the compiled code are observed by ThreadSanitizer on spec-generated executions, whatever the schedule actually taken; outcomes compared with the sequential run.",
+         "Races as such are observed by TSan, not decided by TLC (DESIGN.md section 9). Trusted: objdump symbol tables, TSan, the threads driver."),
+ "C20": (MC, "TLC enumerates files (sequences of line shapes x terminators); spec/Cli.tla pins line structure, comment lines, trimming and echo; the real eav binary is run on every file (default + ASan/UBSan) and compared; verdict/message compared with the library on the pinned address",
+         "Every file of at most MaxLines lines over ~36 line shapes; per line the spec says whether it is a comment, which bytes reach eav_is_email and what is echoed; exit status, stdout structure, verdict and message are compared.",
+         "Trusted: TLC, spec/Cli.tla, tools/cli.py (output parser), the library oracle run through the replay driver. Lines with NUL: the spec follows the tool's C-string reading (not pinned by the property beyond robustness)."),
 }
 NOT_YET = {}
 
